@@ -493,6 +493,10 @@ class Policy(object):
 		if not include_raw_materials:
 			return OQ
 		else:
+			# Validate product (this has not been done yet if inventory_position was provided or
+			# for fixed-quantity policies, which do not need the inventory position).
+			_, prod_ind = self.node.validate_product(product)
+
 			# Initialize returned dict with FG order quantity.
 			OQ_dict = {None: {None: OQ}}
 
